@@ -110,7 +110,7 @@ type T struct {
 	p1   int    // extract lo
 }
 
-func (t *T) Sort() Sort { return t.s }
+func (t *T) Sort() Sort    { return t.s }
 func (t *T) IsConst() bool { return t.op == OConst }
 func (t *T) IsTrue() bool  { return t.op == OConst && t.s.K == KBool && t.c == 1 }
 func (t *T) IsFalse() bool { return t.op == OConst && t.s.K == KBool && t.c == 0 }
@@ -1147,10 +1147,18 @@ func (c *Ctx) fbin(op Op, x, y *T, f func(a, b float64) float64) *T {
 	}
 	return c.mk(&T{op: op, s: FPS, a: []*T{x, y}})
 }
-func (c *Ctx) FAdd(x, y *T) *T { return c.fbin(OFAdd, x, y, func(a, b float64) float64 { return a + b }) }
-func (c *Ctx) FSub(x, y *T) *T { return c.fbin(OFSub, x, y, func(a, b float64) float64 { return a - b }) }
-func (c *Ctx) FMul(x, y *T) *T { return c.fbin(OFMul, x, y, func(a, b float64) float64 { return a * b }) }
-func (c *Ctx) FDiv(x, y *T) *T { return c.fbin(OFDiv, x, y, func(a, b float64) float64 { return a / b }) }
+func (c *Ctx) FAdd(x, y *T) *T {
+	return c.fbin(OFAdd, x, y, func(a, b float64) float64 { return a + b })
+}
+func (c *Ctx) FSub(x, y *T) *T {
+	return c.fbin(OFSub, x, y, func(a, b float64) float64 { return a - b })
+}
+func (c *Ctx) FMul(x, y *T) *T {
+	return c.fbin(OFMul, x, y, func(a, b float64) float64 { return a * b })
+}
+func (c *Ctx) FDiv(x, y *T) *T {
+	return c.fbin(OFDiv, x, y, func(a, b float64) float64 { return a / b })
+}
 func (c *Ctx) FNeg(x *T) *T {
 	if x.op == OConst {
 		return c.FConst(-math.Float64frombits(x.c))
